@@ -842,6 +842,8 @@ func plainRunOne(b *BatchResult, prop string, seed, run uint64, nRandom int) {
 	}
 	if r.chance(4) && injectAliasing(r, m) {
 		b.Mix["models_with_shared_messages"]++
+	} else if r.chance(3) && injectInterning(r, m) {
+		b.Mix["models_with_interned_rewrites"]++
 	}
 	wl := &wlPlain{Model: m}
 	if r.chance(15) {
